@@ -262,6 +262,7 @@ func runPB(c *Ctx, s *Sink) {
 		// threshold variables: if cw[x] < T { break }
 		var T types.Object
 		var breakPos token.Pos
+		strict := true
 		ast.Inspect(fd.Body, func(n ast.Node) bool {
 			ifs, ok := n.(*ast.IfStmt)
 			if !ok || len(ifs.Body.List) == 0 {
@@ -271,11 +272,12 @@ func runPB(c *Ctx, s *Sink) {
 				return true
 			}
 			ast.Inspect(ifs.Cond, func(m ast.Node) bool {
-				if b, ok := m.(*ast.BinaryExpr); ok && b.Op == token.LSS {
+				if b, ok := m.(*ast.BinaryExpr); ok && (b.Op == token.LSS || b.Op == token.LEQ) {
 					if _, isIdx := ast.Unparen(b.X).(*ast.IndexExpr); isIdx {
 						if id, ok := ast.Unparen(b.Y).(*ast.Ident); ok {
 							T = info.ObjectOf(id)
 							breakPos = ifs.Pos()
+							strict = b.Op == token.LSS
 						}
 					}
 				}
@@ -297,6 +299,8 @@ func runPB(c *Ctx, s *Sink) {
 			return true
 		})
 		key := fname + ":threshold:" + T.Name()
+		s.Check(strict, nil, key+":strict", breakPos, "the scan stops only when the shared count is strictly below the threshold",
+			"the scan stops when the shared 4-mer count equals the threshold: a reference sharing exactly the guaranteed minimum of 4-mers (every difference isolated) is a legitimate tie and is never compared")
 		if Q == "" {
 			s.Undecided(nil, key, breakPos, "no call to FastLCSScore found to identify the query and the error bound")
 			return
